@@ -43,7 +43,12 @@ def specs(bridge):
           T('SEQUENCE', fields=[('a', T('INTEGER'), 'req')]),
           T('SEQUENCE', fields=[('a', T('INTEGER'), 'req'), ('b', T('INTEGER'), 'opt')]),
           T('SET', fields=[('a', T('INTEGER'), 'req')])]
-    return [None] + [bridge.to_type(t) for t in ts]
+    out = [None] + [bridge.to_type(t) for t in ts]
+    # constrained guides: the error message of a violated constraint shows the offending value
+    from pyasn1.type import constraint
+    out.append(univ.Integer().subtype(subtypeSpec=constraint.ValueRangeConstraint(0, 10)))
+    out.append(univ.SequenceOf(componentType=univ.Integer()).subtype(subtypeSpec=constraint.ValueSizeConstraint(0, 1)))
+    return out
 
 
 def one(decname, dec, b, spec, error, base):
@@ -202,6 +207,10 @@ def inputs(tier, seed):
         out.append(bytes([0x30, len(real) + 3]) + real + b'\x02\x01\x05')
         out.append(bytes([0x31, len(real)]) + real)
     out += HUGE_LENGTHS
+    # an INTEGER of more decimal digits than the interpreter converts to text (error messages and repr show values)
+    big = bytes.fromhex('02820800') + b'\x7f' + b'\xff' * 2047
+    out += [big, b'\x30\x80' + big + b'\x05\x00\x00\x00', b'\x30\x82\x10\x08' + big + big,
+            bytes.fromhex('31820804') + big]
     # explicit tags with nothing / too much inside
     out += [b'\xa0\x00', b'\xa0\x80\x00\x00', b'\xa1\x06\x02\x01\x01\x02\x01\x02', b'\xa1\x80\x02\x01\x01\x02\x01\x02\x00\x00']
     # single-edit neighbours of valid encodings
